@@ -89,6 +89,9 @@ OBLIGATIONS = [
     "SkVerif.C14.cos_elementwise",
     "SkVerif.C14.adaptor_columnwise",
     "SkVerif.C14.minMax_closed_form",
+    "SkVerif.C14.slope_gradient_encoding",
+    "SkVerif.C14.slope_roots_are_negative_reciprocals",
+    "SkVerif.C14.slope_number_of_segments",
 ]
 TRUSTED = [
     "hand-written models lean/SkVerif/Model/C14{Panel,PAA,Seg,Interp,Impute,Feat}.lean of the anchored transformers, faithful to the extent this correspondence exercises them",
@@ -102,6 +105,7 @@ ASSUMPTIONS = [
     "TSInterpolator on a one-point series follows the installed scipy (only length 1 can be requested); older scipy rejects it outright",
     "PAA: a later column shorter than num_intervals (only the first column is validated by the code) is outside the property's domain and not sent to the model",
     "RandomIntervalFeatureExtractor: how the random intervals are drawn is not modelled; the fitted intervals are read back from the real object (or set by the harness) and the features of their slices are checked",
+    "SlopeTransformer: the square root stays in the harness (the model returns (w, r); compared through sign(m) and m - 1/m = 2w/r); the segment bounds are taken in exact arithmetic, cases where the code's float accumulation `beginning += avg` moves a bound or adds a segment are not sent to the model (the extra segment is known finding slopet:number-of-gradients), nor are non-constant segments whose covariance with time is exactly zero (the code's float test `r == 0` is then decided by rounding)",
     "row transformers / adaptor are checked with harness-defined and sklearn transformers that act column-wise",
     "cell / series dtype (float64, int64, int32 with integer-valued data, per-column mixed int/float; float32 for the value-moving transformers pad, truncate, tabularize, concatenate, interval / sliding-window segmenters) is varied on the real code for every transformer; the required values do not depend on it, so the model (over Rat, or Option Rat for padding where the fill value / values may be NaN) has no dtype. float32 input to the arithmetic transformers is not generated: their float32 rounding is outside exact arithmetic",
 ]
@@ -144,7 +148,7 @@ NP_DTYPE = {"f8": "float64", "f4": "float32", "i8": "int64", "i4": "int32"}
 # transformers that only move values around: float32 cells must come out exactly; the others do arithmetic,
 # which in float32 is outside "exact rational arithmetic" (ASSUMPTIONS)
 F4_OPS = ("pad", "trunc", "tab", "concat", "iseg", "slide")
-PANEL_OPS = ("pad", "trunc", "tab", "concat", "paa", "iseg", "slide", "interp", "rife", "rowprim", "rowser")
+PANEL_OPS = ("pad", "trunc", "tab", "concat", "paa", "iseg", "slide", "interp", "rife", "rowprim", "rowser", "slopet")
 SERIES_OPS = ("impute", "imputef", "acf", "cos", "adapt")
 
 
@@ -1579,6 +1583,150 @@ def adapt_gen(tier, rng):
 OPS["adapt"] = dict(line=adapt_line, real=adapt_real, oracle=adapt_oracle, gen=adapt_gen)
 
 
+# ----------------------------------------------------------------------------- SlopeTransformer
+def _exact_bounds(n, k):
+    return [((j * n) // k, ((j + 1) * n) // k) for j in range(k)]
+
+
+def _float_bounds(n, k):
+    """segment bounds as the float loop `beginning += avg` of `_split_time_series` produces them; only used to decide
+    whether a case is inside the model's exact-arithmetic domain"""
+    avg = n / float(k)
+    out, b = [], 0.0
+    while b < n:
+        out.append((int(b), min(n, int(b + avg))))
+        b += avg
+    return out
+
+
+def slope_in_domain(c):
+    k = c["k"]
+    if not (isinstance(k, int) and not isinstance(k, bool)) or k < 1:
+        return True
+    lens = {len(s) for inst in c["x"] for s in inst}
+    if not all(k > n or _float_bounds(n, k) == _exact_bounds(n, k) for n in lens):
+        return False
+    # a non-constant segment whose covariance with time is EXACTLY zero: the code's `if r == 0` is then decided by
+    # float rounding (gradient 0 or about +-1e16, the line being vertical/undetermined); outside exact arithmetic
+    for inst in c["x"]:
+        for s in inst:
+            if k > len(s):
+                continue
+            for a, b in _exact_bounds(len(s), k):
+                seg = [Fr(v) for v in s[a:b]]
+                if len(set(seg)) > 1:
+                    mx = Fr(len(seg) + 1, 2)
+                    if sum((Fr(i + 1) - mx) * v for i, v in enumerate(seg)) == 0:
+                        return False
+    return True
+
+
+def slope_line(c):
+    if not slope_in_domain(c):
+        return None      # float accumulation of the segment bounds differs from exact arithmetic: not modelled
+    return "C14 slopet %s %s" % (iparam(c["k"]), show_panel(c["x"]))
+
+
+def slope_real(c):
+    def f():
+        r = nested_out(fit_transform(c))
+        c["_m"] = r
+        # (sign m, m - 1/m) per gradient: exact rationals on the model side (2w/r), see Model/C14Slope.lean
+        return show_panel([[[u for m in cell for u in ((0.0, 0.0) if m == 0 else (math.copysign(1.0, m), m - 1.0 / m))]
+                            for cell in inst] for inst in r])
+    c["_m"] = None
+    return guarded(f)
+
+
+CT["slopet"] = (_cls("sktime.transformations.panel.slope", "SlopeTransformer"), lambda c: dict(num_intervals=c["k"]),
+                _panel_arg("x"), _panel_arg("x"))
+
+
+def slope_oracle(c, out):
+    """SlopeTransformer: each series is split into num_intervals consecutive segments and each segment is replaced by
+    the gradient of its total-least-squares line (the line through the centroid minimising the sum of squared
+    perpendicular distances, time axis 1..len): exactly num_intervals gradients per series; rows / columns in place"""
+    x = fr_panel(c["x"])
+    k = c["k"]
+    ncol = len(x[0])
+    if not isinstance(k, int) or isinstance(k, bool) or k < 1:
+        return []
+    if any(len({len(inst[j]) for inst in x}) != 1 for j in range(ncol)) or any(len(s) < k for inst in x for s in inst):
+        return []
+    if out.startswith("E:"):
+        return [("slopet:valid-rejected", out)]
+    ms = c.get("_m")
+    if ms is None or [len(i) for i in ms] != [len(i) for i in x]:
+        return [("slopet:rows-or-columns", out)]
+    for inst, minst in zip(x, ms):
+        for s, mcell in zip(inst, minst):
+            n = len(s)
+            if len(mcell) != k:
+                return [("slopet:number-of-gradients", "%d gradients for num_intervals=%d (series length %d)" % (len(mcell), k, n))]
+            if _float_bounds(n, k) != _exact_bounds(n, k):
+                continue          # segment bounds moved by float accumulation: values not judged
+            for (a, b), m in zip(_exact_bounds(n, k), mcell):
+                seg = s[a:b]
+                L = len(seg)
+                if L == 0:
+                    continue
+                mx, my = Fr(L + 1, 2), sum(seg) / L
+                dx = [Fr(i + 1) - mx for i in range(L)]
+                dy = [v - my for v in seg]
+                sxx, syy, sxy = sum(u * u for u in dx), sum(u * u for u in dy), sum(u * v for u, v in zip(dx, dy))
+                if sxy == 0:
+                    continue      # no unique finite-gradient line (the code returns 0 there)
+                # textbook: the minimum of the perpendicular squared distance is the smaller eigenvalue of the scatter matrix
+                lam = (float(sxx + syy) - math.sqrt(float((sxx - syy) ** 2 + 4 * sxy * sxy))) / 2
+                mm = Fr(m)
+                g = float(sum((v - mm * u) ** 2 for u, v in zip(dx, dy)) / (1 + mm * mm))
+                scale = max(1.0, float(sxx + syy))
+                if not (abs(g - lam) <= 1e-7 * scale) or (m > 0) != (sxy > 0):
+                    return [("slopet:gradient-not-total-least-squares",
+                             "segment %s: gradient %r has perpendicular squared distance %.9g, the total-least-squares line %.9g"
+                             % (show_cell(seg), m, g, lam))]
+    return []
+
+
+def slope_gen(tier, rng):
+    cases = []
+
+    def series(n):
+        """value scale is a dimension: shallow / steep ramps, raw readings in the hundreds, noisy, mixed in one panel"""
+        kind = rng.choice(["small", "ramp", "ramp", "hundreds", "steps", "const"])
+        if kind == "small":
+            return rand_cell(rng, n)
+        if kind == "ramp":
+            sl = rng.choice([3.0, 10.0, -5.0, 0.25, -0.5, 1.0, 40.0])
+            return [sl * i + rng.choice([0.0, 0.0, 0.5, -1.0]) * rng.randrange(0, 3) for i in range(n)]
+        if kind == "hundreds":
+            return [float(rng.randrange(100, 900)) + rng.choice([0.0, 0.5]) for _ in range(n)]
+        if kind == "steps":
+            return [float(rng.choice([0, 0, 50, -20])) + i * rng.choice([0.0, 2.0]) for i in range(n)]
+        return [float(rng.randrange(-5, 6))] * n
+    nmax = 12 if tier == "quick" else 24
+    for n in range(1, nmax + 1):              # exhaustive in (length, num_intervals)
+        for k in range(0, n + 2):
+            cases.append({"op": "slopet", "kind": "S", "k": k, "x": [[series(n)]], "t0": 0})
+    for _ in range(120 if tier == "quick" else 1600):
+        ni, nc = rng.randrange(1, 4), rng.randrange(1, 3)
+        lens = [rng.randrange(2, 33) for _ in range(nc)]
+        if rng.random() < 0.6:
+            lens = [lens[0]] * nc
+        x = [[series(n) for n in lens] for _ in range(ni)]
+        if rng.random() < 0.05 and ni > 1:
+            x[1][0] = x[1][0] + [1.0]
+        kind = rng.choice(["S", "S", "A", "N"])
+        if kind == "N" and not is_rect(x):
+            kind = "S"
+        k = rng.choice([8, 4, 2, 1, rng.randrange(1, lens[0] + 1), rng.randrange(1, lens[0] + 1), lens[0], lens[0] + 1, 0, 2.0])
+        cases.append({"op": "slopet", "kind": kind, "k": k, "x": x, "t0": rng.choice([0, 0, 3])})
+    return cases
+
+
+OPS["slopet"] = dict(line=slope_line, real=slope_real, oracle=slope_oracle, gen=slope_gen)
+
+
 # ----------------------------------------------------------------------------- runner interface
 RULE = ("per transformer: fixed-order exhaustive small scope over shapes / lengths / integer parameters (quick: seed-rotated "
         "stratified slice, thorough: all) + structured random larger panels + malformed configurations; values are random "
@@ -1652,7 +1800,7 @@ def add_history(rng, cases, share=0.35):
         if rng.random() < share and len(pool) > 1 and _valid_ctor_params(c):
             h = pool[rng.randrange(len(pool))]
             if h is not c:
-                c["hist"] = {k: v for k, v in h.items() if k not in ("hist", "ivs_fitted")}
+                c["hist"] = {k: v for k, v in h.items() if k not in ("hist", "ivs_fitted", "_m")}
     return cases
 
 
